@@ -34,7 +34,13 @@ def _spelling(key, i):
 def _marker_text(kind, sp, i, delay=None):
     if delay is not None:
         inner = ", (Blue)" if (kind != "Offset" and i % 2) else ""
-        return "(Delay/%s s, %s, Def/%s%s)" % (delay, kind, sp, inner)
+        # the Delay tag in any letter case / long form, its value in any unit spelling of the time class
+        ms = "%g" % (float(delay) * 1000)
+        dtag = ["Delay/%s s" % delay, "DELAY/%s s" % delay, "delay/%s ms" % ms, "Delay/%s second" % delay,
+                "Temporal-value/DeLaY/%s ms" % ms, "Delay/%s Seconds" % delay][i % 6]
+        if float(ms) != float(delay) * 1000 or "e" in ms:
+            dtag = "Delay/%s s" % delay
+        return "(%s, %s, Def/%s%s)" % (dtag, kind, sp, inner)
     if kind != "Offset" and i % 3 == 1:
         return "(Def/%s, %s, (Blue))" % (sp, kind)
     if i % 2:
